@@ -246,7 +246,17 @@ where
         match engine.open_inner().await {
             Ok(_) => Ok(engine),
             Err(error) => {
-                match engine.close_connection(None).await {
+                // A frame other than the open is illegal at this point: the
+                // connection is closed with an error (and what follows is discarded)
+                let close_error = match &error {
+                    OpenError::IllegalState => Some(definitions::Error::new(
+                        AmqpError::IllegalState,
+                        None,
+                        None,
+                    )),
+                    _ => None,
+                };
+                match engine.close_connection(close_error).await {
                     Ok(_) => Err(error),
                     Err(error) => match error {
                         ConnectionInnerError::TransportError(e) => {
